@@ -296,10 +296,7 @@ func genIso(r *kit.Rand, kind string, big bool) []string {
 		byName = true // otherwise there is one group only
 	}
 	mode := b01(byName)
-	// (not for the nested-lambda kinds: their recorded deviation is accepted only when the output is exactly predicted,
-	// and behind a union the arrival order is the union's)
-	_, nested := nodePre[kind]
-	mixed := len(dims) > 0 && !nested && r.Chance(1, 8)
+	mixed := len(dims) > 0 && r.Chance(1, 8)
 	if mixed {
 		mode, byName = "2", false
 	}
